@@ -236,6 +236,13 @@ def particle_cases(rng, n, dims, cyl):
     return out
 
 
+BOX_EDGE_CASES = [((0.0, 0.0, -500.0), d) for d in
+                  [(1.0, 1.0, 0.0), (1.0, -1.0, 0.0), (1.0, 1.0, 1.0), (-1.0, 1.0, -1.0), (1.0, 0.0, 1.0), (0.0, 1.0, -1.0),
+                   (-1.0, -1.0, 1.0), (2.0, 2.0, 0.0), (0.5, 0.5, 0.5)]] + \
+                 [((250.0, 0.0, -500.0), (1.0, 2.0, 0.0)), ((0.0, -250.0, -250.0), (2.0, 1.0, 1.0))]
+# the line of flight passes exactly through an edge / corner of the 1000 m cube (intersection == bound exactly)
+
+
 class FakeParticle:
     def __init__(self, v, d):
         self.vertex = np.array(v, dtype=float)
@@ -268,7 +275,7 @@ def corr_exit(ctx, escalate):
             meta.append({"gen": "cyl", "dims": dims, "vertex": v, "direction": d})
     for dims in ((1000.0, 1000.0, 1000.0), (10000.0, 250.0, 2800.0)):
         gen = g.RectangularGenerator(dims[0], dims[1], dims[2], 1e9)
-        for v, d in particle_cases(rng, n, dims, False):
+        for v, d in (BOX_EDGE_CASES if dims == (1000.0, 1000.0, 1000.0) else []) + particle_cases(rng, n, dims, False):
             cases.append(PR_EXIT % ("M.box_exit_points %s %s %s %s %s" % (rx.ocf(dims[0]), rx.ocf(dims[1]), rx.ocf(dims[2]), vec(v), vec(d))))
             expect.append(impl_exit(gen, v, d))
             meta.append({"gen": "box", "dims": dims, "vertex": v, "direction": d})
@@ -463,9 +470,11 @@ def probe_exit(ctx):
     for cyl, dims in ((True, (1000.0, 1000.0)), (True, (5000.0, 2800.0)), (False, (1000.0, 1000.0, 1000.0)), (False, (10000.0, 250.0, 2800.0))):
         gen = g.CylindricalGenerator(dims[0], dims[1], 1e9) if cyl else g.RectangularGenerator(dims[0], dims[1], dims[2], 1e9)
         plist = (fixed_cyl if cyl and dims == (1000.0, 1000.0) else []) + particle_cases(rng, n, dims, cyl)
-        for v, d in plist:
-            nrm = math.sqrt(sum(x * x for x in d))
-            d = tuple(x / nrm for x in d)
+        exact = BOX_EDGE_CASES if dims == (1000.0, 1000.0, 1000.0) else []
+        for j, (v, d) in enumerate(exact + plist):
+            if j >= len(exact):
+                nrm = math.sqrt(sum(x * x for x in d))
+                d = tuple(x / nrm for x in d)
             size = max(dims)
             tol = 1e-6 * size
             res = impl_exit(gen, v, d)
@@ -543,7 +552,7 @@ def probe_statistics(ctx):
     st = np.random.get_state()
     np.random.seed((ctx.seed * 7919 + 13) % (2 ** 32))
     delta = 2e-11
-    N = 200000
+    N = 200000 if ctx.thorough else 30000
     out = {}
 
     def ks_uniform(name, x):
@@ -596,7 +605,7 @@ def probe_statistics(ctx):
         ws = []
         orig = sh.get_weights
         sh.get_weights = lambda particle: (ws.append(float(orig(particle)[0])) or (ws[-1], 0.5))
-        M = 40000
+        M = 40000 if ctx.thorough else 5000
         for _ in range(M):
             sh.create_event()
         n = len(ws)
@@ -627,7 +636,8 @@ def _tri_cdf(s):
 def probes(ctx):
     probe_exit(ctx)
     probe_weights(ctx)
-    if ctx.thorough:
+    if ctx.thorough or ctx.broken:
+        # search for a concrete (statistical) witness when a proof / correspondence broke
         probe_statistics(ctx)
 
 
